@@ -401,8 +401,8 @@ class Inliner:
         self.inlined |= inner.inlined
         return wrapper.body
 
-    def run(self, fn):
-        closures = {}
+    def run(self, fn, outer=None):
+        closures = {k: v for k, v in (outer or {}).items() if v is not fn}
 
         def collect(stmts):
             for s in stmts:
@@ -550,6 +550,13 @@ def normalize_function(model, rel, fn, owner_cls=None):
     new = fn  # fn comes from a fresh un-annotated parse owned by the caller: transformed in place
     inl = Inliner(model, rel, owner_cls)
     inl.run(new)
+    # baseline closures: helpers extracted next to them (sibling closures of the enclosing function) are inlined into them too
+    sib = {n.name: n for n in ast.walk(new) if isinstance(n, ast.FunctionDef) and n is not new and is_artefact(rel, n, nested=True)}
+    for n in list(ast.walk(new)):
+        if isinstance(n, ast.FunctionDef) and n is not new and n.name not in sib:
+            il = Inliner(model, rel, owner_cls)
+            il.run(n, dict(sib))
+            inl.inlined |= il.inlined
     new = _Canon().visit(new)
     _guard_clauses(new)
     # nested baseline closures get the canonicalisation too (they were visited by _Canon); guard clauses per nested def:
